@@ -470,6 +470,8 @@ class Eval:
                 return self.entry_val(env, local, proj)
             return self.unknown("multiple defs for index local _%d" % local)
         b, i = point
+        pk = self.norm_pointer_place(body, pk)
+        local, proj = pk
         # cross-place cycles (loop-carried values defined in terms of each other) are cut here
         ak = (env.id, pk, b, i)
         if ak in self._active:
@@ -479,6 +481,45 @@ class Eval:
             return self._lookup_in_block(env, pk, b, i, frozenset())
         finally:
             self._active.discard(ak)
+
+    def norm_pointer_place(self, body, pk, depth=0):
+        """`(*_t)…` where the temporary `_t` is (by its single definition) a copy of another pointer `P` or a reborrow
+        `&(*P).r` / `&mut (*P).r` names the same memory as `(*P)…` / `(*P).r…`: the place is rewritten onto the pointer it was
+        derived from, so that a write through one alias (`j.tr_copy_from(..)` on a captured `&mut j`) is seen by a read through
+        another (`j.dot(..)`)."""
+        local, proj = pk
+        if depth > 4 or not proj or proj[0] != ("deref",) or body.kind != "Closure":
+            # only inside closures, where captured `&mut` variables are reached through copies of the capture pointer; in plain
+            # functions borrows of locals and of `self` fields are tracked on the places themselves
+            return pk
+        cache = body.__dict__.setdefault("_ptrnorm", {})
+        if local not in cache:
+            cache[local] = None
+            if local > body.arg_count:
+                defs = self._defs_of_local(body, local)
+                if len(defs) == 1 and defs[0][1] != "term":
+                    bb, si = defs[0]
+                    st = body.blocks[bb]["stmts"][si]
+                    rv = st["rv"]
+                    ty = body.local_ty(local) or ""
+                    if ty.startswith("&"):
+                        if rv["k"] == "use" and rv["op"].get("k") in ("copy", "move") and rv["op"]["place"]["proj"]:
+                            q = place_key(rv["op"]["place"])
+                            if q[1] and q[1][0] == ("deref",) and q[0] <= body.arg_count:
+                                cache[local] = ("ptr", q)
+                        elif rv["k"] == "ref":
+                            q = place_key(rv["place"])
+                            if q[1] and q[1][0] == ("deref",):
+                                cache[local] = ("ref", q)
+        c = cache[local]
+        if c is None:
+            return pk
+        kind, q = c
+        if kind == "ptr":
+            npk = (q[0], q[1] + proj)            # (*_t).rest  =  (*Q).rest with Q the copied pointer place
+        else:
+            npk = (q[0], q[1] + proj[1:])        # (*&(*P).r).rest = (*P).r.rest
+        return self.norm_pointer_place(body, npk, depth + 1)
 
     def _defs_of_local(self, body, local):
         if body._defs is None:
@@ -516,6 +557,87 @@ class Eval:
                     return False
         return False
 
+    def _mut_borrow_consumer(self, body, tmp_local, depth=0):
+        """(block, terminator, argument index) of the single call that receives the `&mut` temporary (possibly reborrowed)"""
+        if depth > 3:
+            return None
+        hits = []
+        for bi, si, s in body.stmts():
+            if s["k"] == "assign" and s["rv"]["k"] == "ref" and s["rv"]["mut"]:
+                p = s["rv"]["place"]
+                if p["l"] == tmp_local and len(p["proj"]) == 1 and p["proj"][0]["k"] == "deref" and not s["place"]["proj"]:
+                    r = self._mut_borrow_consumer(body, s["place"]["l"], depth + 1)
+                    if r is None:
+                        return None
+                    hits.append(r)
+            elif s["k"] == "assign" and s["rv"]["k"] == "use" and s["rv"]["op"]["k"] in ("move", "copy") and \
+                    s["rv"]["op"]["place"]["l"] == tmp_local and not s["rv"]["op"]["place"]["proj"] and not s["place"]["proj"]:
+                r = self._mut_borrow_consumer(body, s["place"]["l"], depth + 1)
+                if r is None:
+                    return None
+                hits.append(r)
+        for bi, t in body.calls():
+            for ai, a in enumerate(t["args"]):
+                if a["k"] in ("move", "copy") and a["place"]["l"] == tmp_local and not a["place"]["proj"]:
+                    hits.append((bi, t, ai))
+        return hits[0] if len(hits) == 1 else None
+
+    def _mutator_summary(self, env, body, tmp_local, base):
+        """value of a local after it was lent `&mut` to a LOCAL function that is being looked into (not opaque): what that
+        function leaves in `*param` at its return (`fn scale_in_place(&self, m: &mut M)` called as `w.scale_in_place(&mut y)`).
+        None when the borrower is not such a call (then the value is the opaque ("mutated", …) form)."""
+        if env.depth >= self.max_inline:
+            return None
+        hit = self._mut_borrow_consumer(body, tmp_local)
+        if hit is None:
+            return None
+        cbi, t, ai = hit
+        if "fn" not in t:
+            return None
+        key = t["fn"].get("resolved_key") or t["fn"].get("key")
+        cb = self.facts.bodies.get(key) if key else None
+        if cb is None and t["fn"].get("krate") == "nalgebra" and getattr(self.facts, "crate", None) == "varpro":
+            # in-place operations of nalgebra that overwrite their target completely (they assert equal shapes first):
+            # the target's new value is the corresponding pure expression of the other arguments
+            nm = t["fn"]["name"]
+            ops = [self.operand(env, a, (cbi, None)) if i != ai else None for i, a in enumerate(t["args"])]
+            if nm == "copy_from" and ai == 0 and len(ops) == 2:
+                return ops[1]
+            if nm == "tr_copy_from" and ai == 0 and len(ops) == 2:
+                return ("call", "nalgebra::Matrix::transpose", "nalgebra::Matrix", (ops[1],), (body.key, cbi, env.path))
+            if nm == "mul_to" and ai == 2 and len(ops) == 3:
+                return ("call", "std::ops::Mul::mul", "nalgebra::Matrix", (ops[0], ops[1]), (body.key, cbi, env.path))
+            if nm == "tr_mul_to" and ai == 2 and len(ops) == 3:
+                return ("call", "nalgebra::base::ops::tr_mul", "nalgebra::Matrix", (ops[0], ops[1]), (body.key, cbi, env.path))
+            return None
+        if cb is None or key in self.opaque or cb.kind == "Closure" or key in self._active:
+            return None
+        k = ("summary", body.key, cbi, ai, env.path)
+        if k in env.memo:
+            return env.memo[k]
+        self._active.add(key)
+        try:
+            args = {}
+            for i, a in enumerate(t["args"]):
+                args[i + 1] = base if i == ai else self.operand(env, a, (cbi, None))
+            cenv = self.inline_env(cb, args, env.depth + 1, env.path + ((body.key, cbi),))
+            pk = (ai + 1, proj_key([{"k": "deref"}]))
+            alts = []
+            for e in cenv.body.exits():
+                v = self.lookup(cenv, pk, (e, None))
+                for x in (v[1] if v[0] == "phi" else (v,)):
+                    if x not in alts:
+                        alts.append(x)
+            if not alts:
+                return None
+            r = alts[0] if len(alts) == 1 else ("phi", tuple(alts))
+        except RecursionError:
+            return None
+        finally:
+            self._active.discard(key)
+        env.memo[k] = r
+        return r
+
     def _lookup_in_block(self, env, pk, b, i, visiting):
         body = env.body
         local, proj = pk
@@ -538,12 +660,16 @@ class Eval:
             # mutable borrow of an overlapping place
             rv = s["rv"]
             if rv["k"] in ("ref", "rawptr") and rv["mut"]:
-                bl, bproj = place_key(rv["place"])
+                bl, bproj = self.norm_pointer_place(body, place_key(rv["place"]))
                 if bl == local and (is_prefix(bproj, proj) or is_prefix(proj, bproj)):
                     if not self._mut_borrow_is_transparent(body, dl):
                         base = self._lookup_in_block(env, pk, b, si, visiting)
                         site = (body.key, b, si)
                         rel = bproj[len(proj):] if is_prefix(proj, bproj) else ()
+                        if bproj == proj:
+                            summ = self._mutator_summary(env, body, dl, base)
+                            if summ is not None:
+                                return summ
                         return ("mutated", base, site, rel)
         # block entry
         mk = (pk, b)
@@ -670,7 +796,8 @@ class Eval:
                             r = None
                         finally:
                             self.assumed = saved
-                        if r is None or strip_sites(r) != strip_sites(av):
+                        opcall = strip_sites(("call", strip_generics_path(ob), ob.j.get("impl", {}).get("self_adt"), (W, M), None))
+                        if r is None or (strip_sites(r) != strip_sites(av) and strip_sites(av) != opcall):
                             ok = False
                             break
                     if ok:
@@ -804,6 +931,10 @@ class Eval:
                 break
             fixed.update(new)
             env = Env(cb.pruned_multi(fixed), args, depth, path=path)
+        if env.memo:
+            # the speculative evaluation above ran with the site records switched off: values it memoised must not be reused
+            # by the real evaluation (their call sites and ambient conditions would go unrecorded)
+            env = Env(env.body, args, depth, path=path)
         return env
 
     def inline_ret(self, cb, args, depth, path=()):
@@ -1140,7 +1271,7 @@ class Eval:
             if o is not None:
                 _, p, c = o
                 val = self.apply_under(c, fn_, [p], site, env) if fn_ is not None else p
-                known_some = a0[0] == "agg" and a0[2] in ("Ok", "Some")
+                known_some = (a0[0] == "agg" and a0[2] in ("Ok", "Some")) or (a0[0] == "opt" and not a0[2])
                 if known_some:
                     return val
                 if dflt is not None:
